@@ -259,9 +259,12 @@ class Exec:
         m = re.match(r'const (.*)$', tok)
         if m:
             name = m.group(1)
-            if name in self.consts: return self.consts[name]
-            for kk in self.consts:
-                if name.endswith('::' + kk) or kk.endswith('::' + name): return self.consts[kk]
+            ckey = name
+            if name.split('::')[-1].startswith(('promoted[', '{constant#')) and getattr(self, 'cur_fn', None) is not None: ckey = self.cur_fn.path + '::' + name
+            if ckey in self.consts: return self.consts[ckey]
+            if not name.split('::')[-1].startswith(('promoted[', '{constant#')):
+                for kk in self.consts:
+                    if name.endswith('::' + kk) or kk.endswith('::' + name): return self.consts[kk]
             mm = re.match(r'(?:core|std)::num::<impl ([ui]\w+)>::(MAX|MIN)$', name) or re.match(r'([ui]\d+|[ui]size)::(MAX|MIN)$', name)
             if mm and mm.group(1) in WIDTH:
                 wd = WIDTH[mm.group(1)]; signed = mm.group(1).startswith('i')
@@ -282,7 +285,15 @@ class Exec:
 
     def eval_const(self, name):
         """Constants / promoteds declared in the crate, evaluated from the MIR dump."""
-        hit = self.mir.find_const(strip_generics(name))
+        hit = None
+        last = name.split('::')[-1]
+        cf = getattr(self, 'cur_fn', None)
+        if cf is not None and (last.startswith('promoted[') or last.startswith('{constant#')):
+            # promoteds / inline constants belong to the function being executed: resolve them by its own path
+            key = cf.path + '::' + last
+            if key in self.mir.const_fns: hit = ('fn', self.mir.const_fns[key])
+            elif key in self.mir.const_inline: hit = ('inline', self.mir.const_inline[key])
+        if hit is None: hit = self.mir.find_const(strip_generics(name))
         if hit is None: return None
         kind, v = hit
         if kind == 'inline':
@@ -298,7 +309,10 @@ class Exec:
                 try: val = get_at(e[val.local], val.path)
                 except Exception: return None
         if is_bv(val) or is_bool(val): val = simplify(val)
-        self.consts[name] = val
+        ckey = name
+        if last.startswith(('promoted[', '{constant#')) and cf is not None: ckey = cf.path + '::' + name
+        self.consts[ckey] = val
+        self.cur_fn = cf
         return val
 
     # ---- statements
@@ -314,6 +328,7 @@ class Exec:
         self.blocks_run += 1
         env = dict(env)
         for st in fn.blocks[bb]:
+            self.cur_fn = fn
             m = re.match(r'goto -> (bb\d+);', st)
             if m: return self.step(fn, fid, m.group(1), env, pc, visits, k, ctx)
             if st == 'return;':
@@ -446,6 +461,11 @@ class Exec:
             conv = '<%s as From<%s>>::from' % (mm.group(2).strip(), mm.group(1).strip())
             f = self.mir.resolve(conv)
             if f is not None: return self.run_fn(f, vals, env, pc, cont)
+        mm = re.match(r'<(\w+) as PartialEq(?:<.*>)?>::ne$', callee)
+        if mm and self.summary_key(callee) is None and self.mir.resolve(callee) is None:
+            f = self.mir.resolve('<%s as PartialEq>::eq' % mm.group(1))
+            if f is not None:
+                return self.run_fn(f, vals, env, pc, lambda r, e, p: cont(r if isinstance(r, Opaque) else Not(r), e, p))
         mm = re.match(r'<&+(\w+) as PartialEq(?:<.*>)?>::(eq|ne)$', callee)
         if mm and self.summary_key(callee) is None:
             f = self.mir.resolve('<%s as PartialEq>::eq' % mm.group(1))
